@@ -389,6 +389,16 @@ def corpus():
     c['acc_local_abort'] = (True, [
         ('peer', _rq().encode(), 0), ('user', _ac(), 1),
         ('peer', enc(_echo_rq()), 1), ('user', pdu.AAbortPDU(2, 0), 2), ('close', None, 2)])
+    # the peer does not wait: several PDUs and the close are pending behind each other
+    c['acc_data_abort_close_pipelined'] = (True, [
+        ('peer', _rq().encode(), 0), ('user', _ac(), 1),
+        ('peer', enc(_echo_rq()) + pdu.AAbortPDU(0, 0).encode(), 1), ('close', None, 1)])
+    c['acc_request_abort_pipelined'] = (True, [
+        ('peer', _rq().encode() + pdu.AAbortPDU(0, 0).encode(), 0), ('close', None, 0)])
+    st2 = _store_rsp()
+    c['acc_sending_fragments_peer_closes'] = (True, [
+        ('peer', _rq().encode(), 0), ('user', _ac(), 1),
+        ('peer', enc(_echo_rq()), 1), ('user', gen(_store_rq(48)), 2), ('close', None, 2)])
     # requestor side -------------------------------------------------------------------------------
     c['req_echo_release'] = (False, [
         ('user', _rq(), 0), ('peer', _ac().encode(), 1), ('user', gen(_echo_rq()), 1),
@@ -403,6 +413,9 @@ def corpus():
         ('user', _rq(), 0), ('peer', _ac().encode(), 1), ('user', gen(_store_rq(64)), 1),
         ('peer', enc(_store_rsp()) + pdu.AReleaseRqPDU().encode(), 1 + len(_store_rq(64))),
         ('user', pdu.AReleaseRpPDU(), 3), ('close', None, 2 + len(_store_rq(64)))])
+    c['req_release_confirm_and_close'] = (False, [
+        ('user', _rq(), 0), ('peer', _ac().encode(), 1), ('user', pdu.AReleaseRqPDU(), 1),
+        ('peer', pdu.AReleaseRpPDU().encode(), 2), ('close', None, 2)])
     return c
 
 
